@@ -149,3 +149,9 @@ CORPUS += [
 CORPUS += [
     V("C19", "eq-fjsp-files-listing-only-counted", _FG, "        assert len(files) > 0", "        assert len(files) > 0 and len(os.listdir(path)) >= len(files)", None),
 ]
+
+CORPUS += [
+    V("C18", "mtvrp-window-end-before-start", _MG, "        tw_end = tw_start + tw_length", "        tw_end = tw_start - tw_length", "C18.r"),
+    V("C18", "mtvrp-window-start-column-is-the-end", _MG, "torch.cat((torch.zeros(batch_size, 1), tw_start), -1),  # start", "torch.cat((torch.zeros(batch_size, 1), tw_end), -1),  # start", "C18.r"),
+    V("C18", "eq-mtvrp-window-end-commuted", _MG, "        tw_end = tw_start + tw_length", "        tw_end = tw_length + tw_start", None),
+]
